@@ -344,6 +344,9 @@ pub static OUT_PATH: std::sync::OnceLock<String> = std::sync::OnceLock::new();
 /// Wall-clock seconds after which a single case is *nominated* as non-terminating. The verdict
 /// is never taken from this: the driver re-runs the nominated case under a CPU-time limit.
 pub const STUCK_AFTER_S: u64 = 45;
+/// (shard, number of shards): a process only runs the cases with index % n == shard. Used to
+/// spread slow (Miri) workloads over processes.
+pub static SHARD: std::sync::OnceLock<(u64, u64)> = std::sync::OnceLock::new();
 
 /// Run `n` cases over a worker pool; every case runs on its own fresh thread (lace keeps its
 /// symbol table and feature flags in thread-locals).
@@ -382,6 +385,10 @@ where
         scope.spawn(|| {
             while !done.load(Ordering::Relaxed) {
                 std::thread::sleep(std::time::Duration::from_millis(200));
+                if cfg!(miri) {
+                    // no wall-clock nomination under the interpreter (4 orders of magnitude slower)
+                    continue;
+                }
                 let now = t0.elapsed().as_millis() as u64;
                 for (case, start) in &active {
                     let c = case.load(Ordering::Relaxed);
@@ -409,6 +416,11 @@ where
                             let i = next.fetch_add(1, Ordering::Relaxed);
                             if i >= n {
                                 break;
+                            }
+                            if let Some((shard, nshards)) = SHARD.get() {
+                                if i % nshards != *shard {
+                                    continue;
+                                }
                             }
                             i
                         }
